@@ -182,6 +182,17 @@ def zoo_check(n, tier, seed):
             else:
                 R.inconclusive.append("failure did not reproduce 3/3: " + path)
         for rc, out in crashes:
+            if rc == 97:
+                # the library did not return from a call on a generated, in-contract history
+                if os.path.exists(out) and vc.confirm_hang(exes[(fs, variant)], n, out):
+                    msg = "an FFSM2 call never returned on this generated history (watchdog 20 s, reproduced 3/3 under a 10 s alarm; legal cases take microseconds) [%s/%s header, profile %s]" % (fs, variant, prof)
+                    if n in (4, 10, 18):
+                        R.violation(out, msg)
+                    else:
+                        R.inconclusive.append(msg + " case: " + out)
+                else:
+                    R.inconclusive.append("watchdog fired but the hang did not reproduce: " + str(out))
+                continue
             # a crash of the plain build is a memory-safety matter (C18); other properties report it as inconclusive
             if n == 18:
                 p = os.path.join(od, "crash-%s-%s-%s.log" % (fs, variant, prof))
